@@ -1,5 +1,5 @@
-(** C09 — filter push-down ([pfd]/[try_push]) and projection push-down ([ppd]) preserve [sem]
-    as a *list* (hence as a bag, and in order) wherever [pfd_ok] holds; the witnesses of the
+(** C09 — filter push-down ([pfd_pre]/[try_push_pre]) and projection push-down ([ppd]) preserve [sem]
+    as a *list* (hence as a bag, and in order) wherever [pfd_ok_pre] holds; the witnesses of the
     places where the code pushes although it must not. *)
 From Coq Require Import ZArith List Bool String Permutation Lia.
 Import ListNotations.
@@ -64,24 +64,24 @@ Proof.
 Qed.
 
 (** ** the pass keeps the columns *)
-Lemma schema_try_push : forall e op, schema (try_push e op) = schema op.
+Lemma schema_try_push_pre : forall e op, schema (try_push_pre e op) = schema op.
 Proof.
-  intros e op; induction op; cbn [try_push schema]; try reflexivity.
+  intros e op; induction op; cbn [try_push_pre schema]; try reflexivity.
   - destruct (uses_any _ _); cbn [schema]; [reflexivity|]. rewrite IHop. reflexivity.
   - destruct (disjointb _ _); reflexivity.
   - destruct (_ && _); cbn [schema]; [rewrite IHop1; reflexivity|].
     destruct (_ && _); cbn [schema]; [rewrite IHop2; reflexivity|reflexivity].
 Qed.
 
-Lemma schema_pfd : forall p, schema (pfd p) = schema p.
+Lemma schema_pfd_pre : forall p, schema (pfd_pre p) = schema p.
 Proof.
-  induction p; cbn [pfd schema]; try reflexivity; try congruence.
-  rewrite schema_try_push. exact IHp.
+  induction p; cbn [pfd_pre schema]; try reflexivity; try congruence.
+  rewrite schema_try_push_pre. exact IHp.
 Qed.
 
-Lemma uniform_try_push : forall e op, uniform op = true -> uniform (try_push e op) = true.
+Lemma uniform_try_push_pre : forall e op, uniform op = true -> uniform (try_push_pre e op) = true.
 Proof.
-  intros e op; induction op; cbn [try_push uniform]; intros U; try exact U.
+  intros e op; induction op; cbn [try_push_pre uniform]; intros U; try exact U.
   - destruct (uses_any _ _); cbn [uniform]; auto.
   - destruct (disjointb _ _); cbn [uniform]; auto.
   - auto.
@@ -91,10 +91,10 @@ Proof.
     rewrite U1, U2; reflexivity.
 Qed.
 
-Lemma uniform_pfd : forall p, uniform p = true -> uniform (pfd p) = true.
+Lemma uniform_pfd_pre : forall p, uniform p = true -> uniform (pfd_pre p) = true.
 Proof.
-  induction p; cbn [pfd uniform]; intros U; auto.
-  - apply uniform_try_push; auto.
+  induction p; cbn [pfd_pre uniform]; intros U; auto.
+  - apply uniform_try_push_pre; auto.
   - apply andb_true_iff in U as [U1 U2]. rewrite IHp1, IHp2 by assumption. reflexivity.
 Qed.
 
@@ -124,14 +124,14 @@ Proof.
 Qed.
 
 (** ** the commutation lemmas behind every push *)
-Lemma try_push_sound : forall G e op,
-  uniform op = true -> try_push_ok e op = true ->
-  sem G (try_push e op) = filter (passes G e) (sem G op).
+Lemma try_push_pre_sound : forall G e op,
+  uniform op = true -> try_push_ok_pre e op = true ->
+  sem G (try_push_pre e op) = filter (passes G e) (sem G op).
 Proof.
   intros G e op; induction op as
     [|x l|x l inp IH|f t ev d ty h inp IH|e0 inp IH|items inp IH|items dd inp IH|k cs pl IHl pr IHr
      |pl IHl pr IHr|gs ags inp IH|ks inp IH|n inp IH|n inp IH|inp IH|a IHa b IHb];
-    cbn [try_push try_push_ok uniform]; intros U OK; try reflexivity.
+    cbn [try_push_pre try_push_ok_pre uniform]; intros U OK; try reflexivity.
   - (* Expand *)
     destruct (uses_any (expr_vars e) (xintro t ev h)) eqn:UA; [reflexivity|].
     apply andb_true_iff in OK as [HD OK].
@@ -155,6 +155,123 @@ Proof.
     rewrite E. unfold return_rows. destruct dd; [symmetry; apply filter_dedup|reflexivity].
   - (* Join *)
     apply andb_true_iff in U as [Ul Ur].
+    destruct (uses_any (expr_vars e) (out_vars_pre pl) && negb (uses_any (expr_vars e) (out_vars_pre pr))).
+    + (* into the left input *)
+      apply andb_true_iff in OK as [D OK]. cbn [sem]. rewrite schema_try_push_pre, (IHl Ul OK).
+      unfold join_rows. symmetry. apply filter_flat_map_comm.
+      intros a Ha r' Hr'.
+      set (ms := filter (fun b => forallb (cond_holds (schema pl) (schema pr) a b) cs) (sem G pr)) in *.
+      assert (forall x, keys x = schema pr -> passes G e (a ++ x) = passes G e a) as Hx.
+      { intros x Kx. apply passes_ext. intros v Hv. rewrite lookup_app.
+        destruct (lookup v a); [reflexivity|]. apply lookup_not_key. rewrite Kx.
+        eapply disjointb_true; eauto. }
+      assert (In r' (map (fun b => a ++ b) ms) -> passes G e r' = passes G e a) as Hgen.
+      { intros H. apply in_map_iff in H as (b & <- & Hb). apply Hx.
+        apply filter_In in Hb as [Hb _]. apply (keys_sem G pr Ur _ Hb). }
+      destruct k; try (apply Hgen; exact Hr').
+      destruct ms as [|m ms']; [|apply Hgen; exact Hr'].
+      destruct Hr' as [<-|[]]. apply Hx, keys_null_row.
+    + destruct (uses_any (expr_vars e) (out_vars_pre pr) && negb (uses_any (expr_vars e) (out_vars_pre pl)));
+        [|reflexivity].
+      (* into the right input *)
+      apply andb_true_iff in OK as [OK OKr]. apply andb_true_iff in OK as [D NL].
+      cbn [sem]. rewrite schema_try_push_pre, (IHr Ur OKr).
+      assert (forall a, In a (sem G pl) -> forall b, passes G e (a ++ b) = passes G e b) as Hx.
+      { intros a Ha b. apply passes_ext. intros v Hv. rewrite lookup_app.
+        rewrite (lookup_not_in_schema G pl a v Ul Ha); [reflexivity|]. eapply disjointb_true; eauto. }
+      unfold join_rows. rewrite filter_flat_map. apply flat_map_ext_in. intros a Ha.
+      assert (map (fun b => a ++ b)
+                  (filter (fun b => forallb (cond_holds (schema pl) (schema pr) a b) cs)
+                          (filter (passes G e) (sem G pr)))
+              = filter (passes G e)
+                       (map (fun b => a ++ b)
+                            (filter (fun b => forallb (cond_holds (schema pl) (schema pr) a b) cs) (sem G pr))))
+        as E.
+      { rewrite filter_filter_comm. symmetry. apply filter_map_comm. intros b _. apply Hx, Ha. }
+      destruct k; try exact E. discriminate NL.
+Qed.
+
+Theorem pfd_pre_sound : forall G p, uniform p = true -> pfd_ok_pre p = true -> sem G (pfd_pre p) = sem G p.
+Proof.
+  intros G p; induction p as
+    [|x l|x l inp IH|f t ev d ty h inp IH|e0 inp IH|items inp IH|items dd inp IH|k cs pl IHl pr IHr
+     |pl IHl pr IHr|gs ags inp IH|ks inp IH|n inp IH|n inp IH|inp IH|a IHa b IHb];
+    cbn [pfd_pre pfd_ok_pre uniform]; intros U OK; try reflexivity;
+    try (cbn [sem]; rewrite (IH U OK); reflexivity).
+  - apply andb_true_iff in OK as [OK1 OK2].
+    rewrite try_push_pre_sound by (auto using uniform_pfd_pre). cbn [sem]. rewrite (IH U OK1). reflexivity.
+  - apply andb_true_iff in U as [Ul Ur]. apply andb_true_iff in OK as [OKl OKr].
+    cbn [sem]. rewrite !schema_pfd_pre, (IHl Ul OKl), (IHr Ur OKr). reflexivity.
+Qed.
+
+(** ** the proposed repair of C09-K1 ([try_push]/[pfd], Opt.v) *)
+Lemma schema_try_push : forall e op, schema (try_push e op) = schema op.
+Proof.
+  intros e op; induction op; cbn [try_push schema]; try reflexivity.
+  - destruct (uses_any _ _); cbn [schema]; [reflexivity|]. rewrite IHop. reflexivity.
+  - destruct (all_passed _ _); reflexivity.
+  - destruct (all_passed _ _); reflexivity.
+  - destruct (_ && _); cbn [schema]; [rewrite IHop1; reflexivity|].
+    destruct (_ && _); cbn [schema]; [rewrite IHop2; reflexivity|reflexivity].
+Qed.
+
+Lemma schema_pfd : forall p, schema (pfd p) = schema p.
+Proof.
+  induction p; cbn [pfd schema]; try reflexivity; try congruence.
+  rewrite schema_try_push. exact IHp.
+Qed.
+
+Lemma uniform_try_push : forall e op, uniform op = true -> uniform (try_push e op) = true.
+Proof.
+  intros e op; induction op; cbn [try_push uniform]; intros U; try exact U.
+  - destruct (uses_any _ _); cbn [uniform]; auto.
+  - destruct (all_passed _ _); cbn [uniform]; auto.
+  - destruct (all_passed _ _); cbn [uniform]; auto.
+  - apply andb_true_iff in U as [U1 U2].
+    destruct (_ && _); cbn [uniform]; [rewrite IHop1, U2 by assumption; reflexivity|].
+    destruct (_ && _); cbn [uniform]; [rewrite IHop2, U1 by assumption; reflexivity|].
+    rewrite U1, U2; reflexivity.
+Qed.
+
+Lemma uniform_pfd : forall p, uniform p = true -> uniform (pfd p) = true.
+Proof.
+  induction p; cbn [pfd uniform]; intros U; auto.
+  - apply uniform_try_push; auto.
+  - apply andb_true_iff in U as [U1 U2]. rewrite IHp1, IHp2 by assumption. reflexivity.
+Qed.
+
+Lemma try_push_sound : forall G e op,
+  uniform op = true -> try_push_ok e op = true ->
+  sem G (try_push e op) = filter (passes G e) (sem G op).
+Proof.
+  intros G e op; induction op as
+    [|x l|x l inp IH|f t ev d ty h inp IH|e0 inp IH|items inp IH|items dd inp IH|k cs pl IHl pr IHr
+     |pl IHl pr IHr|gs ags inp IH|ks inp IH|n inp IH|n inp IH|inp IH|a IHa b IHb];
+    cbn [try_push try_push_ok uniform]; intros U OK; try reflexivity.
+  - (* Expand *)
+    destruct (uses_any (expr_vars e) (xintro t ev h)) eqn:UA; [reflexivity|].
+    apply andb_true_iff in OK as [HD OK].
+    cbn [sem]. rewrite (IH U OK). symmetry. apply filter_flat_map_comm.
+    intros r Hr r' Hr'. unfold expand_row in Hr'.
+    destruct (lookup f r) as [[| | | |s|]|]; try destruct Hr'.
+    apply in_map_iff in Hr' as (et & <- & _). apply passes_ext. intros v Hv.
+    rewrite lookup_app. destruct (lookup v r) as [x|]; [reflexivity|].
+    apply lookup_not_key. rewrite keys_xcols. apply mem_xnames.
+    + exact (uses_any_false _ _ UA v Hv).
+    + exact (disjointb_true _ _ HD v Hv).
+  - (* Project *)
+    destruct (all_passed (expr_vars e) items); [|reflexivity].
+    apply andb_true_iff in OK as [T OK]. cbn [sem]. rewrite (IH U OK). symmetry.
+    apply filter_map_comm. intros r Hr. eapply passes_project_through; eauto.
+  - (* Return *)
+    destruct (all_passed (expr_vars e) items); [|reflexivity].
+    apply andb_true_iff in OK as [T OK]. cbn [sem]. rewrite (IH U OK).
+    assert (map (project_row G items) (filter (passes G e) (sem G inp))
+            = filter (passes G e) (map (project_row G items) (sem G inp))) as E
+      by (symmetry; apply filter_map_comm; intros r Hr; eapply passes_project_through; eauto).
+    rewrite E. unfold return_rows. destruct dd; [symmetry; apply filter_dedup|reflexivity].
+  - (* Join *)
+    apply andb_true_iff in U as [Ul Ur].
     destruct (uses_any (expr_vars e) (out_vars pl) && negb (uses_any (expr_vars e) (out_vars pr))).
     + (* into the left input *)
       apply andb_true_iff in OK as [D OK]. cbn [sem]. rewrite schema_try_push, (IHl Ul OK).
@@ -171,10 +288,11 @@ Proof.
       destruct k; try (apply Hgen; exact Hr').
       destruct ms as [|m ms']; [|apply Hgen; exact Hr'].
       destruct Hr' as [<-|[]]. apply Hx, keys_null_row.
-    + destruct (uses_any (expr_vars e) (out_vars pr) && negb (uses_any (expr_vars e) (out_vars pl)));
-        [|reflexivity].
+    + destruct (uses_any (expr_vars e) (out_vars pr) && negb (uses_any (expr_vars e) (out_vars pl))
+                && match k with JLeft => false | _ => true end) eqn:RP; [|reflexivity].
       (* into the right input *)
-      apply andb_true_iff in OK as [OK OKr]. apply andb_true_iff in OK as [D NL].
+      apply andb_true_iff in RP as [_ NL].
+      apply andb_true_iff in OK as [D OKr].
       cbn [sem]. rewrite schema_try_push, (IHr Ur OKr).
       assert (forall a, In a (sem G pl) -> forall b, passes G e (a ++ b) = passes G e b) as Hx.
       { intros a Ha b. apply passes_ext. intros v Hv. rewrite lookup_app.
@@ -202,124 +320,6 @@ Proof.
     rewrite try_push_sound by (auto using uniform_pfd). cbn [sem]. rewrite (IH U OK1). reflexivity.
   - apply andb_true_iff in U as [Ul Ur]. apply andb_true_iff in OK as [OKl OKr].
     cbn [sem]. rewrite !schema_pfd, (IHl Ul OKl), (IHr Ur OKr). reflexivity.
-Qed.
-
-(** ** the proposed repair of C09-K1 ([try_push_fix]/[pfd_fix], Opt.v) *)
-Lemma schema_try_push_fix : forall e op, schema (try_push_fix e op) = schema op.
-Proof.
-  intros e op; induction op; cbn [try_push_fix schema]; try reflexivity.
-  - destruct (uses_any _ _); cbn [schema]; [reflexivity|]. rewrite IHop. reflexivity.
-  - destruct (all_passed _ _); reflexivity.
-  - destruct (all_passed _ _); reflexivity.
-  - destruct (_ && _); cbn [schema]; [rewrite IHop1; reflexivity|].
-    destruct (_ && _); cbn [schema]; [rewrite IHop2; reflexivity|reflexivity].
-Qed.
-
-Lemma schema_pfd_fix : forall p, schema (pfd_fix p) = schema p.
-Proof.
-  induction p; cbn [pfd_fix schema]; try reflexivity; try congruence.
-  rewrite schema_try_push_fix. exact IHp.
-Qed.
-
-Lemma uniform_try_push_fix : forall e op, uniform op = true -> uniform (try_push_fix e op) = true.
-Proof.
-  intros e op; induction op; cbn [try_push_fix uniform]; intros U; try exact U.
-  - destruct (uses_any _ _); cbn [uniform]; auto.
-  - destruct (all_passed _ _); cbn [uniform]; auto.
-  - destruct (all_passed _ _); cbn [uniform]; auto.
-  - apply andb_true_iff in U as [U1 U2].
-    destruct (_ && _); cbn [uniform]; [rewrite IHop1, U2 by assumption; reflexivity|].
-    destruct (_ && _); cbn [uniform]; [rewrite IHop2, U1 by assumption; reflexivity|].
-    rewrite U1, U2; reflexivity.
-Qed.
-
-Lemma uniform_pfd_fix : forall p, uniform p = true -> uniform (pfd_fix p) = true.
-Proof.
-  induction p; cbn [pfd_fix uniform]; intros U; auto.
-  - apply uniform_try_push_fix; auto.
-  - apply andb_true_iff in U as [U1 U2]. rewrite IHp1, IHp2 by assumption. reflexivity.
-Qed.
-
-Lemma try_push_fix_sound : forall G e op,
-  uniform op = true -> try_push_fix_ok e op = true ->
-  sem G (try_push_fix e op) = filter (passes G e) (sem G op).
-Proof.
-  intros G e op; induction op as
-    [|x l|x l inp IH|f t ev d ty h inp IH|e0 inp IH|items inp IH|items dd inp IH|k cs pl IHl pr IHr
-     |pl IHl pr IHr|gs ags inp IH|ks inp IH|n inp IH|n inp IH|inp IH|a IHa b IHb];
-    cbn [try_push_fix try_push_fix_ok uniform]; intros U OK; try reflexivity.
-  - (* Expand *)
-    destruct (uses_any (expr_vars e) (xintro t ev h)) eqn:UA; [reflexivity|].
-    apply andb_true_iff in OK as [HD OK].
-    cbn [sem]. rewrite (IH U OK). symmetry. apply filter_flat_map_comm.
-    intros r Hr r' Hr'. unfold expand_row in Hr'.
-    destruct (lookup f r) as [[| | | |s|]|]; try destruct Hr'.
-    apply in_map_iff in Hr' as (et & <- & _). apply passes_ext. intros v Hv.
-    rewrite lookup_app. destruct (lookup v r) as [x|]; [reflexivity|].
-    apply lookup_not_key. rewrite keys_xcols. apply mem_xnames.
-    + exact (uses_any_false _ _ UA v Hv).
-    + exact (disjointb_true _ _ HD v Hv).
-  - (* Project *)
-    destruct (all_passed (expr_vars e) items); [|reflexivity].
-    apply andb_true_iff in OK as [T OK]. cbn [sem]. rewrite (IH U OK). symmetry.
-    apply filter_map_comm. intros r Hr. eapply passes_project_through; eauto.
-  - (* Return *)
-    destruct (all_passed (expr_vars e) items); [|reflexivity].
-    apply andb_true_iff in OK as [T OK]. cbn [sem]. rewrite (IH U OK).
-    assert (map (project_row G items) (filter (passes G e) (sem G inp))
-            = filter (passes G e) (map (project_row G items) (sem G inp))) as E
-      by (symmetry; apply filter_map_comm; intros r Hr; eapply passes_project_through; eauto).
-    rewrite E. unfold return_rows. destruct dd; [symmetry; apply filter_dedup|reflexivity].
-  - (* Join *)
-    apply andb_true_iff in U as [Ul Ur].
-    destruct (uses_any (expr_vars e) (out_vars_fix pl) && negb (uses_any (expr_vars e) (out_vars_fix pr))).
-    + (* into the left input *)
-      apply andb_true_iff in OK as [D OK]. cbn [sem]. rewrite schema_try_push_fix, (IHl Ul OK).
-      unfold join_rows. symmetry. apply filter_flat_map_comm.
-      intros a Ha r' Hr'.
-      set (ms := filter (fun b => forallb (cond_holds (schema pl) (schema pr) a b) cs) (sem G pr)) in *.
-      assert (forall x, keys x = schema pr -> passes G e (a ++ x) = passes G e a) as Hx.
-      { intros x Kx. apply passes_ext. intros v Hv. rewrite lookup_app.
-        destruct (lookup v a); [reflexivity|]. apply lookup_not_key. rewrite Kx.
-        eapply disjointb_true; eauto. }
-      assert (In r' (map (fun b => a ++ b) ms) -> passes G e r' = passes G e a) as Hgen.
-      { intros H. apply in_map_iff in H as (b & <- & Hb). apply Hx.
-        apply filter_In in Hb as [Hb _]. apply (keys_sem G pr Ur _ Hb). }
-      destruct k; try (apply Hgen; exact Hr').
-      destruct ms as [|m ms']; [|apply Hgen; exact Hr'].
-      destruct Hr' as [<-|[]]. apply Hx, keys_null_row.
-    + destruct (uses_any (expr_vars e) (out_vars_fix pr) && negb (uses_any (expr_vars e) (out_vars_fix pl))
-                && match k with JLeft => false | _ => true end) eqn:RP; [|reflexivity].
-      (* into the right input *)
-      apply andb_true_iff in RP as [_ NL].
-      apply andb_true_iff in OK as [D OKr].
-      cbn [sem]. rewrite schema_try_push_fix, (IHr Ur OKr).
-      assert (forall a, In a (sem G pl) -> forall b, passes G e (a ++ b) = passes G e b) as Hx.
-      { intros a Ha b. apply passes_ext. intros v Hv. rewrite lookup_app.
-        rewrite (lookup_not_in_schema G pl a v Ul Ha); [reflexivity|]. eapply disjointb_true; eauto. }
-      unfold join_rows. rewrite filter_flat_map. apply flat_map_ext_in. intros a Ha.
-      assert (map (fun b => a ++ b)
-                  (filter (fun b => forallb (cond_holds (schema pl) (schema pr) a b) cs)
-                          (filter (passes G e) (sem G pr)))
-              = filter (passes G e)
-                       (map (fun b => a ++ b)
-                            (filter (fun b => forallb (cond_holds (schema pl) (schema pr) a b) cs) (sem G pr))))
-        as E.
-      { rewrite filter_filter_comm. symmetry. apply filter_map_comm. intros b _. apply Hx, Ha. }
-      destruct k; try exact E. discriminate NL.
-Qed.
-
-Theorem pfd_fix_sound : forall G p, uniform p = true -> pfd_fix_ok p = true -> sem G (pfd_fix p) = sem G p.
-Proof.
-  intros G p; induction p as
-    [|x l|x l inp IH|f t ev d ty h inp IH|e0 inp IH|items inp IH|items dd inp IH|k cs pl IHl pr IHr
-     |pl IHl pr IHr|gs ags inp IH|ks inp IH|n inp IH|n inp IH|inp IH|a IHa b IHb];
-    cbn [pfd_fix pfd_fix_ok uniform]; intros U OK; try reflexivity;
-    try (cbn [sem]; rewrite (IH U OK); reflexivity).
-  - apply andb_true_iff in OK as [OK1 OK2].
-    rewrite try_push_fix_sound by (auto using uniform_pfd_fix). cbn [sem]. rewrite (IH U OK1). reflexivity.
-  - apply andb_true_iff in U as [Ul Ur]. apply andb_true_iff in OK as [OKl OKr].
-    cbn [sem]. rewrite !schema_pfd_fix, (IHl Ul OKl), (IHr Ur OKr). reflexivity.
 Qed.
 
 (** *** the patched push-down keeps every well-scoped plan whose predicates do not mention the
@@ -383,10 +383,10 @@ Proof.
       split; [exact F|]. intros it' [<-|H']; [apply String.eqb_neq; exact Nn|apply N, H'].
 Qed.
 
-Lemma hidden_try_push_fix : forall e op v,
-  mem v (hidden_names (try_push_fix e op)) = mem v (hidden_names op).
+Lemma hidden_try_push : forall e op v,
+  mem v (hidden_names (try_push e op)) = mem v (hidden_names op).
 Proof.
-  intros e op v; induction op; cbn [try_push_fix hidden_names]; try reflexivity.
+  intros e op v; induction op; cbn [try_push hidden_names]; try reflexivity.
   - destruct (uses_any _ _); cbn [hidden_names]; [reflexivity|]. rewrite !mem_app, IHop. reflexivity.
   - destruct (all_passed _ _); cbn [hidden_names]; [|reflexivity]. rewrite !mem_app, IHop. reflexivity.
   - destruct (all_passed _ _); cbn [hidden_names]; [|reflexivity]. rewrite !mem_app, IHop. reflexivity.
@@ -394,22 +394,22 @@ Proof.
     destruct (_ && _); cbn [hidden_names]; [rewrite !mem_app, IHop2; reflexivity|reflexivity].
 Qed.
 
-Lemma hidden_pfd_fix : forall p v, mem v (hidden_names (pfd_fix p)) = mem v (hidden_names p).
+Lemma hidden_pfd : forall p v, mem v (hidden_names (pfd p)) = mem v (hidden_names p).
 Proof.
-  induction p; intros v; cbn [pfd_fix hidden_names]; try reflexivity;
+  induction p; intros v; cbn [pfd hidden_names]; try reflexivity;
     rewrite ?mem_app, ?IHp, ?IHp1, ?IHp2; try reflexivity.
-  rewrite hidden_try_push_fix. apply IHp.
+  rewrite hidden_try_push. apply IHp.
 Qed.
 
 (** the patched collector over-approximates the columns, up to the invented names *)
 Lemma schema_sub_out_vars : forall p v,
   wscoped p = true -> mem v (schema p) = true -> mem v (hidden_names p) = false ->
-  mem v (out_vars_fix p) = true.
+  mem v (out_vars p) = true.
 Proof.
   induction p as
     [|x l|x l inp IH|f t ev d ty h inp IH|e0 inp IH|items inp IH|items dd inp IH|k cs pl IHl pr IHr
      |pl IHl pr IHr|gs ags inp IH|ks inp IH|n inp IH|n inp IH|inp IH|a IHa b IHb];
-    intros v W S Hd; cbn [wscoped schema hidden_names out_vars_fix] in *; try (apply IH; assumption).
+    intros v W S Hd; cbn [wscoped schema hidden_names out_vars] in *; try (apply IH; assumption).
   - discriminate.
   - exact S.
   - rewrite mem_app in S. cbn [mem] in *. apply orb_true_iff in S as [S|S].
@@ -484,16 +484,16 @@ Proof.
 Qed.
 
 (** one push: justified, and the result is again well scoped *)
-Lemma try_push_fix_scoped : forall H e op,
+Lemma try_push_scoped : forall H e op,
   wscoped op = true ->
   (forall v, mem v (hidden_names op) = true -> mem v H = true) ->
   subsetb (expr_vars e) (schema op) = true -> disjointb (expr_vars e) H = true ->
-  try_push_fix_ok e op = true /\ wscoped (try_push_fix e op) = true.
+  try_push_ok e op = true /\ wscoped (try_push e op) = true.
 Proof.
   intros H e op; induction op as
     [|x l|x l inp IH|f t ev d ty h inp IH|e0 inp IH|items inp IH|items dd inp IH|k cs pl IHl pr IHr
      |pl IHl pr IHr|gs ags inp IH|ks inp IH|n inp IH|n inp IH|inp IH|a IHa b IHb];
-    intros W HH S D; cbn [try_push_fix try_push_fix_ok];
+    intros W HH S D; cbn [try_push try_push_ok];
     try (split; [reflexivity|]; cbn [wscoped]; rewrite S; exact W).
   - (* Expand *)
     cbn [wscoped hidden_names schema] in *.
@@ -528,7 +528,7 @@ Proof.
     { unfold through_ok. apply forallb_forall. intros v Hv. destruct (PT v Hv) as [-> ->]. reflexivity. }
     assert (subsetb (expr_vars e) (schema inp) = true) as S' by (apply subsetb_intro; intros v Hv; apply PT, Hv).
     destruct (IH W (fun v Hv => HH v ltac:(rewrite mem_app, Hv; apply orb_true_r)) S' D) as [OK W'].
-    rewrite TO, OK. split; [reflexivity|]. cbn [wscoped]. rewrite schema_try_push_fix, Wi. exact W'.
+    rewrite TO, OK. split; [reflexivity|]. cbn [wscoped]. rewrite schema_try_push, Wi. exact W'.
   - (* Return *)
     cbn [wscoped hidden_names schema] in *. apply andb_true_iff in W as [Wi W].
     destruct (all_passed (expr_vars e) items) eqn:AP;
@@ -549,7 +549,7 @@ Proof.
     { unfold through_ok. apply forallb_forall. intros v Hv. destruct (PT v Hv) as [-> ->]. reflexivity. }
     assert (subsetb (expr_vars e) (schema inp) = true) as S' by (apply subsetb_intro; intros v Hv; apply PT, Hv).
     destruct (IH W (fun v Hv => HH v ltac:(rewrite mem_app, Hv; apply orb_true_r)) S' D) as [OK W'].
-    rewrite TO, OK. split; [reflexivity|]. cbn [wscoped]. rewrite schema_try_push_fix, Wi. exact W'.
+    rewrite TO, OK. split; [reflexivity|]. cbn [wscoped]. rewrite schema_try_push, Wi. exact W'.
   - (* Join *)
     cbn [wscoped hidden_names schema] in *. apply andb_true_iff in W as [Wl Wr].
     assert (forall v, mem v (hidden_names pl) = true -> mem v H = true) as HHl
@@ -557,14 +557,14 @@ Proof.
     assert (forall v, mem v (hidden_names pr) = true -> mem v H = true) as HHr
       by (intros v Hv; apply HH; rewrite mem_app, Hv; apply orb_true_r).
     assert (forall q, wscoped q = true -> (forall v, mem v (hidden_names q) = true -> mem v H = true) ->
-            uses_any (expr_vars e) (out_vars_fix q) = false -> disjointb (expr_vars e) (schema q) = true) as NotIn.
+            uses_any (expr_vars e) (out_vars q) = false -> disjointb (expr_vars e) (schema q) = true) as NotIn.
     { intros q Wq HHq U. apply disjointb_intro. intros v Hv.
       destruct (mem v (schema q)) eqn:M; [|reflexivity].
       assert (mem v (hidden_names q) = false) as Hq.
       { destruct (mem v (hidden_names q)) eqn:M2; [|reflexivity].
         pose proof (HHq v M2) as HV. rewrite (disjointb_true _ _ D v Hv) in HV. discriminate HV. }
       pose proof (schema_sub_out_vars q v Wq M Hq) as X. rewrite (uses_any_false _ _ U v Hv) in X. discriminate. }
-    destruct (uses_any (expr_vars e) (out_vars_fix pl)) eqn:UL, (uses_any (expr_vars e) (out_vars_fix pr)) eqn:UR;
+    destruct (uses_any (expr_vars e) (out_vars pl)) eqn:UL, (uses_any (expr_vars e) (out_vars pr)) eqn:UR;
       cbn [andb negb];
       try (split; [reflexivity|]; cbn [wscoped schema]; rewrite S, Wl, Wr; reflexivity).
     + (* left only *)
@@ -590,33 +590,33 @@ Proof.
   intros a b c H. split; apply disjointb_intro; intros x Hx; apply (disjointb_true _ _ H); apply in_or_app; tauto.
 Qed.
 
-Theorem pfd_fix_scoped_gen : forall H p,
+Theorem pfd_scoped_gen : forall H p,
   wscoped p = true -> (forall v, mem v (hidden_names p) = true -> mem v H = true) ->
   disjointb (filter_vars p) H = true ->
-  pfd_fix_ok p = true /\ wscoped (pfd_fix p) = true.
+  pfd_ok p = true /\ wscoped (pfd p) = true.
 Proof.
   intros H p; induction p as
     [|x l|x l inp IH|f t ev d ty h inp IH|e0 inp IH|items inp IH|items dd inp IH|k cs pl IHl pr IHr
      |pl IHl pr IHr|gs ags inp IH|ks inp IH|n inp IH|n inp IH|inp IH|a IHa b IHb];
-    intros W HH D; cbn [pfd_fix pfd_fix_ok wscoped hidden_names filter_vars] in *;
+    intros W HH D; cbn [pfd pfd_ok wscoped hidden_names filter_vars] in *;
     try (split; [reflexivity|exact W]);
     try (apply IH; [exact W|intros v Hv; apply HH; rewrite ?mem_app, Hv, ?orb_true_r; reflexivity|exact D]).
   - (* Filter *)
     apply andb_true_iff in W as [S W]. apply disjointb_app_l in D as [De Di].
     destruct (IH W HH Di) as [OK W'].
-    destruct (try_push_fix_scoped H e0 (pfd_fix inp) W') as [OK2 W2].
-    + intros v Hv. rewrite hidden_pfd_fix in Hv. apply HH, Hv.
-    + rewrite schema_pfd_fix. exact S.
+    destruct (try_push_scoped H e0 (pfd inp) W') as [OK2 W2].
+    + intros v Hv. rewrite hidden_pfd in Hv. apply HH, Hv.
+    + rewrite schema_pfd. exact S.
     + exact De.
     + rewrite OK, OK2. split; [reflexivity|exact W2].
   - (* Project *)
     apply andb_true_iff in W as [Wi W].
     destruct (IH W (fun v Hv => HH v ltac:(rewrite mem_app, Hv; apply orb_true_r)) D) as [OK W'].
-    split; [exact OK|]. rewrite schema_pfd_fix, Wi. exact W'.
+    split; [exact OK|]. rewrite schema_pfd, Wi. exact W'.
   - (* Return *)
     apply andb_true_iff in W as [Wi W].
     destruct (IH W (fun v Hv => HH v ltac:(rewrite mem_app, Hv; apply orb_true_r)) D) as [OK W'].
-    split; [exact OK|]. rewrite schema_pfd_fix, Wi. exact W'.
+    split; [exact OK|]. rewrite schema_pfd, Wi. exact W'.
   - (* Join *)
     apply andb_true_iff in W as [Wl Wr]. apply disjointb_app_l in D as [Dl Dr].
     destruct (IHl Wl (fun v Hv => HH v ltac:(rewrite mem_app, Hv; reflexivity)) Dl) as [OKl Wl'].
@@ -624,11 +624,11 @@ Proof.
     rewrite OKl, OKr, Wl', Wr'. split; reflexivity.
 Qed.
 
-Theorem pfd_fix_scoped : forall G p,
-  uniform p = true -> wscoped p = true -> names_ok p = true -> sem G (pfd_fix p) = sem G p.
+Theorem pfd_scoped : forall G p,
+  uniform p = true -> wscoped p = true -> names_ok p = true -> sem G (pfd p) = sem G p.
 Proof.
-  intros G p U W N. apply pfd_fix_sound; [exact U|].
-  apply (pfd_fix_scoped_gen (hidden_names p) p W); [auto|exact N].
+  intros G p U W N. apply pfd_sound; [exact U|].
+  apply (pfd_scoped_gen (hidden_names p) p W); [auto|exact N].
 Qed.
 
 (** ** projection push-down rebuilds the tree it is given *)
